@@ -5,6 +5,7 @@ import (
 
 	"github.com/mit-pdos/go-journal/buf"
 	"github.com/mit-pdos/go-journal/common"
+	"github.com/mit-pdos/go-journal/jrnl"
 	"github.com/mit-pdos/go-journal/obj"
 	"github.com/mit-pdos/go-journal/util"
 	"github.com/mit-pdos/go-nfsd/dir"
@@ -49,6 +50,18 @@ func MakeNfs(d disk.Disk) *Nfs {
 		nfs.makeRootDir()
 	}
 	return nfs
+}
+
+// maxWrite is the largest WRITE that always fits in one journal transaction:
+// its data blocks (one more if the request is not block-aligned), at most
+// four index blocks, the inode block and the block-bitmap blocks must not
+// exceed the log.
+func (nfs *Nfs) maxWrite() uint64 {
+	var nbitmap = nfs.fsstate.Super.NBlockBitmap
+	if nbitmap > jrnl.LogBlocks/2 {
+		nbitmap = jrnl.LogBlocks / 2
+	}
+	return (jrnl.LogBlocks - 7 - nbitmap) * disk.BlockSize
 }
 
 func (nfs *Nfs) ShutdownNfs() {
